@@ -73,7 +73,7 @@ def run_check(prop, tier, seed, replay=None, update_baseline=False):
     if not tasks:
         print('property %s: zero verification tasks -- vacuous, refusing to report success' % prop)
         return 3
-    budget = 30000 if tier == "quick" else 120000
+    budget = 120000 if tier == "quick" else 300000
     nproc = min(16, len(tasks), os.cpu_count() or 4)
     ctx = mp.get_context('spawn')
     out = {}
@@ -206,6 +206,8 @@ def run_check(prop, tier, seed, replay=None, update_baseline=False):
             'obligations_excused_by_known_findings': [{'obligation': r['obligation'], 'finding': k['id'], 'verdict': r['verdict']}
                                                       for (r, k) in excused],
             'not_built': REG.not_built_for(prop),
+            'slowest_obligations': [{'obligation': r['obligation'], 's': r['s'], 'backend': r['backend']}
+                                    for r in sorted(all_results, key=lambda r: -(r.get('s') or 0))[:8]],
             'samples': [{'obligation': r['obligation'], 'kind': r['kind'], 'verdict': r['verdict'],
                          'backend': r['backend'], 's': r['s']} for r in all_results[:12]],
         },
